@@ -1,6 +1,7 @@
 """Path exploration by replay, path conditions, obligations, solver back ends."""
 from __future__ import annotations
 
+import os
 import subprocess
 import zlib
 import tempfile
